@@ -69,7 +69,12 @@ def classify_m(mline, trace_lines):
             elif opname in ("res",):
                 props |= {"C15"}
             elif opname in ("sched",):
-                props |= {"C07"}
+                if "stages" in diff:
+                    props |= {"C12", "C08"}
+                if "phases" in diff:
+                    props |= {"C08", "C07", "C12"}
+                if not diff:
+                    props |= {"C07"}
             else:
                 props |= {"C01"}
     else:
@@ -140,6 +145,10 @@ def classify_x(xline, trace_lines):
         props |= {"C10"}
     elif oracle == "eq":
         props |= {"C16"}
+    elif oracle == "sched":
+        props |= {"C07"}
+        if "world-differs" in rest or "phases-differ" in rest or "system-state-differs" in rest:
+            props |= {"C08"}
     elif oracle == "query":
         props |= {"C03"}
     elif oracle == "par":
@@ -181,6 +190,12 @@ def all_runs(tier, seed):
     return core_runs(tier, seed, profile="multi-res-serde-query")
 
 
+def sched_runs(tier, seed):
+    if tier == "thorough":
+        return [["core", "--family", "reg4", "--seed", str(seed), "--cases", "1500", "--ops", "50", "--profile", "single-sched"]]
+    return [["core", "--family", "reg4", "--seed", str(seed), "--cases", "90", "--ops", "40", "--profile", "single-sched"]]
+
+
 def core_runs(tier, seed, profile="multi"):
     if tier == "thorough":
         return [["core", "--family", "reg4", "--seed", str(seed), "--cases", "6000", "--ops", "60", "--profile", profile],
@@ -200,12 +215,15 @@ TRUSTED = [
 ]
 
 HOOK_COMMITS = ["903a2e5", "7f71e80"]
+FIX_COMMITS = ["7b7a5a0", "885588c", "58c8a9f"]
 NOT_APPLICABLE = {}
 
 CORE_TRUST = ("Lean kernel + {propext, Classical.choice, Quot.sound}; hand-written L1 model tied to the code by the "
               "correspondence check (real World vs Lean driver, every result and full dump, Inv evaluated on every real "
               "dump through the brood_verif dump hook); Vec/VecDeque/hashbrown modelled as lists; hash iteration order "
               "abstracted (sorted, clear order taken from the real table)")
+
+SCHED_TRUST = ("Lean kernel + {propext, Classical.choice, Quot.sound}; conflict tables regenerated from the source by the translator on every run; hand-written stager / stage-runner model tied to the code by type_name of the real Stages type and by the fork/join log of the brood_verif join shim; PARTIAL: tasks are atomic in the model (instruction-level interleaving of data-race-free tasks, rayon work stealing and join are not modelled)")
 
 PROPS = {
     "C01": dict(runs=core_runs,
@@ -232,6 +250,15 @@ PROPS = {
     "C16": dict(runs=core_runs,
                 level="equality theorems (Props/C16.lean: reflexive, symmetric under Inv, sound w.r.t. abs); `==` evaluated in both directions on pairs of worlds built by different histories and compared with the model; L0 oracle: worlds that compare equal must hold the same map and resources, a == a, a == b iff b == a",
                 trust=CORE_TRUST, technique="Lean 4 proof (soundness/symmetry of eqWorld) + differential correspondence check with an L0 soundness oracle"),
+    "C07": dict(runs=sched_runs,
+                level="every task staged exactly once in order (Props/C07.lean) over the generated tables; each schedule of a generated typed family is run by run_schedule under scripted fork/join orders (all-first, all-second, random) and on real pools of 1, 2, 8 threads on clones of random worlds and compared with the same systems run one by one in declared order (world dump, resources, per-system accumulators, run counts)",
+                trust=SCHED_TRUST, technique="Lean 4 proof (stager partition theorems over generated tables) + differential check against the sequential run under scripted fork/join orders"),
+    "C08": dict(runs=sched_runs,
+                level="verifier table sound, Claim::try_merge sound (generated tables, kernel-decided), every group of every schedule pairwise compatible (Props/C08.lean); static groups of real schedule types and the run-time phases (which next-stage tasks start early) compared with the model through the fork/join log, which covers all interleavings of a run at once",
+                trust=SCHED_TRUST, technique="Lean 4 proof (table soundness + stager invariant) + fork/join-structure correspondence check"),
+    "C12": dict(runs=sched_runs,
+                level="verifier table precise, stage boundaries justified by a conflict, independent tasks appended (Props/C12.lean); static grouping of real schedule types read from type_name::<S::Stages>() and compared with the model's greedy stager; every schedule run to completion on pools of 1, 2 and 8 threads",
+                trust=SCHED_TRUST + "; termination of the real run_schedule is exercised, not proved", technique="Lean 4 proof (precision + maximality of the greedy stager over generated tables) + static staging correspondence via type_name"),
     "C06": dict(runs=serde_runs,
                 level="token-level model of Serialize/Deserialize (both encodings) with round-trip theorems in Props/C06.lean; the real token stream of every round trip is deserialized by the real code and by the model, dumps compared, the copy then driven in lock-step with further ops; rejection of a reachable world's serialization is an oracle failure",
                 trust=CORE_TRUST + "; serde_assert 0.5 framing rules modelled from its source", technique="Lean 4 proof (round trip on the token model) + differential correspondence check on real token streams"),
